@@ -221,19 +221,53 @@ def str_of_safe(units):
     return "".join(chr(u) for u in units)
 
 
-KEY_POOL = ["", "a", "b", "A", "key", "k 1", " lead", "trail ", "'q'", "é", "中", "a;b", "x" * 40, "_n", "k:v", "\t"]
+KEY_POOL = ["", "a", "b", "A", "key", "k 1", " lead", "trail ", "'q'", "\u00e9", "\u4e2d", "a;b", "x" * 40, "_n", "k:v", "\t"]
+# keys whose NFC form differs from the spelling (the entry then holds two different strings: key and key_orig)
+UNSTABLE_KEYS = ["e\u0301", "\u212b", "A\u030a", "x\u0323\u0307", "\u1e0b\u0323"]
 
 
-def rand_tree(r, depth_left, widths=(0, 1, 2, 3, 4, 5, 8, 9, 10, 11, 15, 16), maxlen=600, leaf=rand_leaf):
+def rand_tree(r, depth_left, widths=(0, 1, 2, 3, 4, 5, 8, 9, 10, 11, 15, 16), maxlen=600, leaf=rand_leaf, unstable_keys=False):
     k = r.random()
     if depth_left > 0 and k < 0.45:
         n = r.choice(widths)
         if r.random() < 0.5:
-            return ("L", [rand_tree(r, depth_left - 1 if r.random() < 0.5 else 0, (0, 1, 2, 3, 4), maxlen, leaf) for _ in range(n)])
-        keys = list(KEY_POOL)
+            return ("L", [rand_tree(r, depth_left - 1 if r.random() < 0.5 else 0, (0, 1, 2, 3, 4), maxlen, leaf, unstable_keys) for _ in range(n)])
+        keys = list(KEY_POOL) + (list(UNSTABLE_KEYS) if unstable_keys else [])
         r.shuffle(keys)
-        return ("T", [(units_of(key), rand_tree(r, depth_left - 1 if r.random() < 0.5 else 0, (0, 1, 2, 3), maxlen, leaf)) for key in keys[:min(n, len(keys))]])
+        chosen, seen = [], set()
+        for key in keys:
+            nk = unicodedata.normalize("NFC", key)
+            if nk not in seen and len(chosen) < n:
+                seen.add(nk)
+                chosen.append(key)
+        return ("T", [(units_of(key), rand_tree(r, depth_left - 1 if r.random() < 0.5 else 0, (0, 1, 2, 3), maxlen, leaf, unstable_keys)) for key in chosen])
     return leaf(r, maxlen)
+
+
+def norm_tokens(tree):
+    """`@<orig>=<nfc>` tokens for every table key of the tree whose NFC form differs from its spelling (the model's key
+    normaliser is given by these pairs; any other key is its own normal form)"""
+    out = []
+
+    def walk(t):
+        if t[0] == "L":
+            for v in t[1]:
+                walk(v)
+        elif t[0] == "T":
+            for key, v in t[1]:
+                nk = nfc(key)
+                if nk != key:
+                    tok = "@%s=%s" % (hexs(key), hexs(nk))
+                    if tok not in out:
+                        out.append(tok)
+                walk(v)
+    walk(tree)
+    return out
+
+
+def value_tokens(tree):
+    """request tokens of a value: normalisation pairs first, then the value"""
+    return norm_tokens(tree) + tokens_of(tree)
 
 
 def chain(r, depth_wanted, leaf):
@@ -243,7 +277,7 @@ def chain(r, depth_wanted, leaf):
         if r.random() < 0.5:
             t = ("L", [("U",)] * r.randint(0, 2) + [t])
         else:
-            t = ("T", [(units_of(r.choice(KEY_POOL)), t)])
+            t = ("T", [(units_of(r.choice(KEY_POOL + UNSTABLE_KEYS)), t)])
     return t
 
 
